@@ -61,6 +61,7 @@ type FuncContract struct {
 	AssumePreFor []string // ... only for calls to these callees ("assumepre Recv.Method [A] reason")
 	IterFn    string   // "iterates f count E": calls parameter f once per index 0..E-1, in order
 	IterCount string
+	IterAny   bool     // the iteration does not depend on f's result (RemoveIf): no early stop
 	Yields    []Clause // facts about the arguments of the iter-th call (closure parameter names, iter)
 	ModExcept []string // "modifies everything except T1, T2": type texts
 	Preserves []string // types whose heaps uncontracted calls in this function never modify (assumption)
@@ -312,6 +313,10 @@ func (db *ContractDB) parseContractFile(path, pkgPath string, prefix string, ass
 					return fmt.Errorf("%s: iterates <param> count <expr>", src)
 				}
 				cur.IterFn, cur.IterCount = fs[0], strings.TrimSpace(fs[2])
+				if strings.HasSuffix(cur.IterCount, " anyresult") {
+					cur.IterAny = true
+					cur.IterCount = strings.TrimSpace(strings.TrimSuffix(cur.IterCount, " anyresult"))
+				}
 				cur.HasMod = true
 			case "yields":
 				cur.Yields = append(cur.Yields, Clause{rest, label, src})
